@@ -24,7 +24,7 @@ RECORD_CLASSES = ['noise', 'walk', 'sine', 'chirp', 'beat', 'impulse', 'hat', 's
                   'const', 'zeropad', 'intnoise']
 
 
-def record(rng, n, cls=None, amp=None, allow_const=True, wide=False):
+def record(rng, n, cls=None, amp=None, allow_const=True, wide=False, extreme=False):
     """Return (float64 array of length n, class name)."""
     if cls is None:
         cls = RECORD_CLASSES[int(rng.integers(len(RECORD_CLASSES)))]
@@ -84,6 +84,12 @@ def record(rng, n, cls=None, amp=None, allow_const=True, wide=False):
         x = rng.integers(-9, 10, size=n).astype(float)
     else:
         raise ValueError(cls)
+    if amp is None and extreme and rng.random() < 0.04:
+        # extreme but valid scales: the record, its integrals and its linear responses are normal doubles, but a SQUARE of a
+        # sample under- or overflows (|x| < 1e-162 or > 1e154) - any zero test or ranking done through squares goes wrong here.
+        # The class name carries the marker so that callers keep the record in a float64 / list container.
+        amp = 10.0 ** (rng.uniform(165, 220) * (1 if rng.random() < 0.5 else -1))
+        return np.asarray(x, dtype=float) * amp, cls + '/extreme-scale'
     if amp is None and wide and rng.random() < 0.25:
         amp = 10.0 ** rng.uniform(-12, 12)      # micro .. huge amplitudes (opt-in)
         return np.asarray(x, dtype=float) * amp, cls
